@@ -104,7 +104,9 @@ def c05_decision(ctx, p):
         exp = exp if isinstance(exp, int) else z3.simplify(exp).as_signed_long()
         if now == exp:
             ctx.cover('equality-instant')
-    r = ctx.impl.is_removal(to, ob, now)
+    # the configured instant may carry a sub-second part; `to` is a whole second, so the decision is that of the whole seconds
+    now_ns = ctx.int('now_ns', 0, 999_999_999) if p.get('subsec') else 0
+    r = ctx.impl.is_removal(to, ob, now, now_ns=now_ns)
     want = (I64(now) >= exp) if ctx.symbolic else (now >= exp)
     if r is True or r is False:
         ctx.cover('expired' if r else 'not-expired')
@@ -186,7 +188,12 @@ def c05_malformed(ctx, p):
 def c05_pipeline(ctx, p):
     """the same decision through the real clean: which attribute is read, which offset is appended, what the registry does"""
     cfg = props_pipe.base_cfg(tl_offset=list(p['offset'].encode()), now=p['now'])
-    src = list(("A<t a='2001-01-01 00:00:00' " + p.get('extra', '') + "to='" + p['to'] + "' b='1999-01-01 00:00:00'>q</t>B").encode())
+    if p.get('subsec'):
+        cfg['now_ns'] = ctx.int('now_ns', 0, 999_999_999)   # any sub-second part: the decision is that of the whole second
+    if 'raw' in p:
+        src = list(("A<t " + p['raw'] + ">q</t>B").encode())   # the attribute text as given (quote-in-quote shapes)
+    else:
+        src = list(("A<t a='2001-01-01 00:00:00' " + p.get('extra', '') + "to='" + p['to'] + "' b='1999-01-01 00:00:00'>q</t>B").encode())
     out = ctx.impl.clean(src, [60], [62], cfg)
     if p['expect']:
         ctx.cover('removed')
@@ -194,6 +201,25 @@ def c05_pipeline(ctx, p):
     else:
         ctx.cover('kept')
         props_pipe.expect_identity(ctx, src, out, f"unexpired element removed (to={p['to']} offset={p['offset']} now={p['now']})", 'unexpired-removed')
+
+
+@harness('c01_to_value', covers=['to-value-evaluated'])
+def c01_to_value(ctx, p):
+    """totality of the expiry decision on arbitrary `to` text: a concrete prefix of a well-formed value, then k arbitrary UTF-8 bytes, then a suffix"""
+    from props_front import no_panic
+    to = list(p['prefix'].encode()) + ctx.bytes('v', p['k']) + list(p.get('suffix', '').encode())
+    ctx.cover('to-value-evaluated')
+    no_panic(ctx, lambda: ctx.impl.is_removal(to, list(p.get('offset', '+00:00').encode()), 1 << 40), 'TimeLimitedEvaluator::is_removal')
+
+
+def c01_to_value_jobs(tier):
+    full = '2024-12-31 23:59:59 +09:00 x'
+    jobs = []
+    cuts = (0, 10, 16, 17, 18, 19, 20, 26) if tier == 'quick' else range(0, len(full))
+    for L in cuts:
+        for k, suffix in ((3, ''), (3, 'zz')) if tier == 'quick' else ((1, ''), (2, ''), (3, ''), (4, ''), (3, 'zz'), (4, '9')):
+            jobs.append(dict(harness='c01_to_value', label=f'to = {full[:L]!r} + U({k}) + {suffix!r}', params=dict(prefix=full[:L], k=k, suffix=suffix)))
+    return jobs
 
 
 @harness('c05_sequence', covers=['second-call-differs-from-first'])
@@ -223,6 +249,8 @@ def c05_jobs(tier, seed):
         for m in months:
             J('c05_decision', f'decision month={m} day/time/year symbolic, offset symbolic colon={colon}', fixed={'M': m}, colon=colon, window=90000)
     J('c05_decision', 'decision all 14 digits symbolic, offset +00:00, now within 2 s', offset='+00:00', window=2)
+    J('c05_decision', 'decision all 14 digits symbolic, offset +00:00, now within 2 s with symbolic nanoseconds', offset='+00:00', window=2, subsec=True)
+    J('c05_decision', 'decision date symbolic in 2024-02, offset -09:30, now with symbolic nanoseconds', fixed={'Y': '2024', 'M': '02'}, offset='-09:30', window=3, subsec=True)
     J('c05_decision', 'decision all 14 digits symbolic, offset symbolic, now within 1 day', window=86400)
     for off in ('-09:00', '+14:00', '-1200', '+0530', '+05:45'):
         J('c05_decision', f'decision date symbolic in 2024-02, offset {off}', fixed={'Y': '2024', 'M': '02'}, offset=off, window=200000)
@@ -249,8 +277,16 @@ def c05_jobs(tier, seed):
                 if tier == 'quick' and dn == 1:
                     continue
                 J('c05_pipeline', f'pipeline to={to} offset={off} now=deadline{dn:+d}s', to=to, offset=off, now=e + dn, expect=exp)
+                if off in ('+00:00', '-0945') and dn < 1:
+                    J('c05_pipeline', f'pipeline to={to} offset={off} now=deadline{dn:+d}s + symbolic nanoseconds', to=to, offset=off, now=e + dn, expect=exp, subsec=True)
         for extra in ("c='été 2023' ", "c=é ", "日付='x' "):
             e = inst(to, '+09:00')
             for dn, exp in ((-1, False), (0, True)):
                 J('c05_pipeline', f'pipeline non-ASCII attribute before to: {extra!r} to={to} now=deadline{dn:+d}s', to=to, offset='+09:00', now=e + dn, expect=exp, extra=extra)
+    # `to` only inside another attribute's quoted value / a value closed by the other quote character: no usable `to`, never ready
+    far = 1 << 36
+    for raw in ("note='was \"beta\" to=\"2001-01-01 00:00:00\" in the old markup'", "to=\"2001-01-01 00:00:00'", "to=\"2001-01-01 00:00:00' JST\"",
+                "to='2001-01-01 00:00:00\" x='", "c=\"it's to='2001-01-01 00:00:00'\"", "to-be='2001-01-01 00:00:00'", "To='2001-01-01 00:00:00'"):
+        J('c05_pipeline', f'pipeline quote-in-quote / near-miss attribute: {raw}', raw=raw, to='-', offset='+00:00', now=far, expect=False)
+    J('c05_pipeline', "pipeline quote-in-quote before a real to", raw="c=\"it's\" to='2001-01-01 00:00:00' d='\"'", to='-', offset='+00:00', now=far, expect=True)
     return jobs
